@@ -285,15 +285,21 @@ def find_lookup_site(tu, fname):
     if len(found) != 1:
         raise Unsupported("%s: expected exactly one `fn %% ...->period` statement, found %d" % (fname, len(found)))
     kids, a = found[0]
-    # the statement that forms the pointer into ->frames: S1 itself or the next one
+    # the statement that forms the pointer into ->frames, found by SHAPE (`p = &...->frames[e]` / `...->frames + e` / `...->frames[e]`):
+    # S1 itself or a later sibling; statements in between (an assertion on the offset, a log line) are part of the executed prefix
     var = None
     b = a
-    for b in (a, a + 1):
-        if b < len(kids) and mentions_frames(kids[b]):
+    for b in range(a, min(a + 8, len(kids))):
+        if mentions_frames(kids[b]):
             var = assigned_var(kids[b])
+            if var[0] is None and kids[b].get("kind") == "DeclStmt":
+                # `const struct l1sched_tdma_frame *frame = &...->frames[offset];`
+                ds = [d for d in kids[b].get("inner", []) if d.get("kind") == "VarDecl" and mentions_frames(d)]
+                if len(ds) == 1:
+                    var = (ds[0]["id"], ds[0].get("name"))
             break
     if not var or var[0] is None:
-        raise Unsupported("%s: no `p = ...->frames[...]` statement at the lookup" % fname)
+        raise Unsupported("%s: no `p = ...->frames[...]` statement within 8 statements of the `fn %% period` computation" % fname)
     last = b
     while last + 1 < len(kids) and refs(kids[last + 1], var[0]) and not has(kids[last + 1], lambda x: x.get("kind") == "CallExpr"):
         last += 1
